@@ -398,6 +398,10 @@ class Project:
         # TODO: This method does more than one thing. We ought to simplify it.
         license_files: dict[str, Path] = {}
 
+        # A regular file called LICENSES is not the directory of that name.
+        if not (self.root / "LICENSES").is_dir():
+            return license_files
+
         # The root is a literal path, not a pattern.
         directory = str(Path(glob.escape(str(self.root))) / "LICENSES/**")
         for path_str in glob.iglob(directory, recursive=True):
